@@ -39,6 +39,11 @@ CHECKS['C19'] = dict(
    note='Trusted: Lean kernel; axioms propext, Quot.sound; jsonschema and the file system are the parameter truth (observed per call in a fresh process); tools/c19_child.py network stubs.',
    technique='Lean 4 proof (cache invariant by induction over all histories) + differential call sequences against fresh-process baselines',
    ref='7/C19')
+CHECKS['C13'] = dict(
+   text='Machine-checked proof (Lean 4, core only) that for ALL valid dates and years the transcribed age-group functions equal Rules 107 (meetings 1 Jan-30 Sep) and 207/507 (cut-off = last 31 August on or before the day) restated from the rule text on ages defined by anniversaries, always return a well-formed label, never give a younger group for an earlier birth date, that vets/underage change only masters/U9 outcomes and ROAD = XC; ages follow dateutil (29 Feb -> 28 Feb in common years, truncation below zero, proved irrelevant to every group). Correspondence with calc_uka_age_group (date objects and ISO strings) on boundary-dense sweeps: 9.3 M pairs quick, 116 M thorough, classified by an independent rule oracle.',
+   note='Trusted: Lean kernel; axioms propext, Classical.choice, Quot.sound; dateutil (relativedelta years modelled and confirmed by a direct correspondence, ISO parsing observed only); the readings of the rule text written out in DESIGN.md (TF October-December outside the asserted range as the property says; road/XC cut-off = the 31 August on or before the day).',
+   technique='Lean 4 proof (calendar arithmetic by omega, decision lists as threshold sums) + sharded boundary-dense correspondence with an independent rule oracle',
+   ref='7/C13')
 NOT_YET = {}
 def main():
     props = [json.loads(l) for l in open(os.path.join(HERE, 'properties.jsonl'))]
